@@ -114,6 +114,15 @@ CLAIMED = {
              "(EOF inside a line; blocked read never woken on loss for DoIP/HSFZ), two fixed defects (close() after reset).",
         ref="§4 C08", technique="symbolic execution with symbolic time on a virtual event loop (CrossHair + z3)", engine="vloop",
     ),
+    "C09": dict(
+        text="Bounded symbolic execution (CrossHair + z3) of the real SessionsScanner.main/_recover_stack against an ECU whose session-transition "
+             "relation is symbolic (every edge among 3-4 sessions a symbolic boolean, refusal codes symbolic): for every graph in the bound the reported "
+             "set equals BFS reachability within the depth limit, every reported path is a real path of length <= depth, the scan terminates, and skipped "
+             "sessions are never requested.",
+        note="Trusted: CrossHair, z3, spec/session_model.py. ECU is a graph stub using the real response classes; scanner config is a plain namespace; every "
+             "session can return to the default session (documented precondition). --reset / --with-hooks outside.",
+        ref="§4 C09", technique="symbolic execution of the real scanner over symbolic transition graphs (CrossHair + z3)",
+    ),
     "C02": dict(
         text="Bounded symbolic execution (CrossHair + z3) of the real UDSResponse.parse_dynamic / from_pdu / pdu code: for every first byte "
              "0x00-0xFF and every total length in the stated bound, with all remaining bytes symbolic, every path is explored and the "
